@@ -306,7 +306,7 @@ Definition float_decimal_spec (f : fty) (p s : Z) (bits : Z) : outcome Z :=
   | _ => Err
   end.
 
-(* ---------- the code before the repairs a2e764fa7 / 40311688b / PENDING-1 (kept for the witness lemmas) ---------- *)
+(* ---------- the code before the repairs a2e764fa7 / 40311688b / 770f0ed44 (kept for the witness lemmas) ---------- *)
 Module Old.
 (* DecimalType::validate_precision before a2e764fa7 *)
 Definition validate_precision (oc : bool) (d : dty) (value precision : Z) : outcome unit :=
@@ -362,7 +362,7 @@ Definition float_to_decimal (oc : bool) (f : fty) (d : dty) (precision scale : Z
       end
   end).
 
-(* DecimalToDecimal between 40311688b and PENDING-1: scale factor and rescaling in the TARGET
+(* DecimalToDecimal between 40311688b and 770f0ed44: scale factor and rescaling in the TARGET
    primitive, the source value converted to it first *)
 Definition decimal_to_decimal_narrow (oc : bool) (d1 d2 : dty) (scale1 precision2 scale2 : Z) (v : Z) : outcome Z :=
   let scale_diff := scale1 - scale2 in
@@ -380,7 +380,7 @@ Definition decimal_to_decimal_narrow (oc : bool) (d1 d2 : dty) (scale1 precision
   | Panic => Panic
   end))).
 
-(* FloatToDecimal between 40311688b and PENDING-1: scale factor and product in the SOURCE float type *)
+(* FloatToDecimal between 40311688b and 770f0ed44: scale factor and product in the SOURCE float type *)
 Definition float_to_decimal_srcfmt (oc : bool) (f : fty) (d : dty) (precision scale : Z) (bits : Z) : outcome Z :=
   let mul_scale := match powi10 (Z.abs scale) with
                    | FFin n m e => round_float f n m e           (* `as f32` / identity for f64 *)
